@@ -31,7 +31,7 @@ import (
 func init() {
 	register("c11", "real rotate.Bootstrap / rotate.Key runs on gcsca over a recording storage client (testing/storage and "+
 		"storage/local), histories of bootstrap + 0..3 rotations (thorough: up to 5), repeated to sample Go map orders, plus "+
-		"rotations onto a planted leftover object with and without overwrite; every prefix of every recorded write log is "+
+		"rotations onto a planted leftover object with and without overwrite (and with --keep_going); every prefix of every recorded write log is "+
 		"replayed into a fresh store and reloaded through a fresh authority + self-check. Non-trivial: the operation wrote "+
 		"at least two objects; distinct by op line.", runC11)
 }
@@ -103,6 +103,12 @@ func c11Consistent(objs map[string][]byte) (bool, string) {
 
 // c11RunOp runs one operation under recording and evaluates every prefix.
 func c11RunOp(in *e1Inst, i int, border *string, overwrite bool, plant string) *c11Op {
+	return c11RunOpX(in, i, border, overwrite, plant, false)
+}
+
+// c11RunOpX: with collide, the rotation is the one AFTER the i-th (i >= 1) and asks for the serial of the i-th,
+// i.e. its certificate would go to the object the manifest records for the current primary.
+func c11RunOpX(in *e1Inst, i int, border *string, overwrite bool, plant string, collide bool) *c11Op {
 	o := &c11Op{}
 	before := in.objects()
 	var rec []string
@@ -117,6 +123,9 @@ func c11RunOp(in *e1Inst, i int, border *string, overwrite bool, plant string) *
 	} else {
 		ctx := rotateCtx(in.ctx(overwrite, nil), "sig", int64(2+i))
 		_, err = runGuarded(func() error { _, e := rotate.Key(ctx); return e })
+		if collide {
+			kind = "collide"
+		}
 	}
 	in.rec, in.onW = nil, nil
 	// visiting order of the pending certificates, read off the recorded probes
@@ -138,6 +147,9 @@ func c11RunOp(in *e1Inst, i int, border *string, overwrite bool, plant string) *
 	o.op = fmt.Sprintf("c11 op=fin i=%d border=%s order=%s ow=%s", i, *border, strings.Join(order, ","), b2s(overwrite))
 	if plant != "" {
 		o.op += " plant=" + plant
+	}
+	if collide {
+		o.op += " coll=1"
 	}
 	replay := o.op + " log=" + strings.Join(rec, ",")
 	// permutation check (pending certificates: bootstrap root+first key; rotation the new key)
@@ -228,12 +240,20 @@ func c11RunOp(in *e1Inst, i int, border *string, overwrite bool, plant string) *
 		o.counts = append(o.counts, "boot-order/"+*border)
 	}
 	if plant != "" {
-		o.counts = append(o.counts, "planted/ow"+b2s(overwrite)+"/"+res)
+		o.counts = append(o.counts, "planted/ow"+b2s(overwrite)+"/kg"+b2s(in.keepGoing)+"/"+res)
+	}
+	if collide {
+		o.counts = append(o.counts, "collide/ow"+b2s(overwrite)+"/kg"+b2s(in.keepGoing)+"/"+res)
+		// the refusal stated on the implementation alone: no storage probe or write, and no success
+		if len(rec) != 0 || err == nil {
+			o.finds = append(o.finds, Finding{"c11/collide/object-of-another-key-version-not-refused",
+				fmt.Sprintf("a rotation whose certificate object is recorded for the current primary reached storage or succeeded (err=%v)", err), replay})
+		}
 	}
 	return o
 }
 
-func c11History(ca string, n int, seed uint64, withPlant, keepGoing bool) []*c11Op {
+func c11History(ca string, n int, seed uint64, withPlant, keepGoing, withCollide bool) []*c11Op {
 	dir, err := os.MkdirTemp("", "verif-c11-")
 	must(err)
 	defer os.RemoveAll(dir)
@@ -267,6 +287,13 @@ func c11History(ca string, n int, seed uint64, withPlant, keepGoing bool) []*c11
 		ops = append(ops, c11RunOp(in, n+1, &border, false, obj))
 		ops = append(ops, c11RunOp(in, n+1, &border, true, obj))
 	}
+	if withCollide && !withPlant && n >= 1 {
+		// the next rotation asks for the current primary's own serial: its certificate object is recorded for
+		// another key version and gcsca.upload refuses it before any storage call, with and without overwrite
+		in.expectKey = memkmBump(key)
+		ops = append(ops, c11RunOpX(in, n, &border, false, "", true))
+		ops = append(ops, c11RunOpX(in, n, &border, true, "", true))
+	}
 	_ = keys.ErrNoContext
 	return ops
 }
@@ -278,6 +305,7 @@ func runC11(c *Ctx) {
 		seed  uint64
 		plant bool
 		keep  bool
+		coll  bool
 		out   []*c11Op
 	}
 	var jobs []*job
@@ -285,7 +313,7 @@ func runC11(c *Ctx) {
 	maxN := c.N(3, 6)
 	for _, ca := range []string{"gcsmem", "gcslocal"} {
 		for r := 0; r < reps; r++ {
-			jobs = append(jobs, &job{ca: ca, n: r % (maxN + 1), seed: c.Rng.Next(), plant: r%3 == 0, keep: r%4 == 1})
+			jobs = append(jobs, &job{ca: ca, n: r % (maxN + 1), seed: c.Rng.Next(), plant: r%3 == 0, keep: r%4 == 1, coll: r%3 != 0})
 		}
 	}
 	var wg sync.WaitGroup
@@ -295,7 +323,10 @@ func runC11(c *Ctx) {
 		go func() {
 			defer wg.Done()
 			for j := range ch {
-				j.out = c11History(j.ca, j.n, j.seed, j.plant && !j.keep, j.keep)
+				// planted leftovers also under --keep_going: since gcsca.upload's second "fix:" commit an existing
+				// object that --keep_going leaves unwritten is refused like without the flag (it used to be
+				// recorded without an upload — the general form of finding C12-K5)
+				j.out = c11History(j.ca, j.n, j.seed, j.plant, j.keep, j.coll)
 			}
 		}()
 	}
